@@ -335,8 +335,24 @@ ALGOS = {
 MUTATION_ONLY = {"ES", "PAES"}          # these take a Mutation as variator
 
 
+def _with_restarts(alg):
+    """NSGA-II with an epsilon-box archive and a user-added time-continuation extension with short windows (documented public
+    API: Algorithm.add_extension): a restart -- archive members mutated, evaluated and injected -- is forced every few steps"""
+    from platypus import extensions as X
+    alg.add_extension(X.AdaptiveTimeContinuationExtension(window_size=3, max_window_size=6, population_ratio=2.0,
+                                                          min_population_size=4, max_population_size=12))
+    return alg
+
+
+# configurations that are only used where a check asks for them by name (not part of the default round-robin)
+EXTRA_ALGOS = {
+    "NSGAII+restarts": (lambda p, n, kw: _with_restarts(A.NSGAII(p, population_size=n, archive=C.EpsilonBoxArchive([0.3]), **kw)), set()),
+}
+ALL_ALGOS = dict(ALGOS, **EXTRA_ALGOS)
+
+
 def applicable(name, spec):
-    needs = ALGOS[name][1]
+    needs = ALL_ALGOS[name][1]
     if "single" in needs and spec.nobjs != 1:
         return False
     if "multi" in needs and spec.nobjs < 2:
@@ -449,7 +465,7 @@ def run_traced(name, spec, seed, size, budgets, evaluator="map", explicit=False,
                         s.evaluate()            # a user seeding the run with solutions evaluated earlier
                     gen_sols.append(s)
                 kw["generator"] = O.InjectedPopulation(gen_sols)
-            alg = ALGOS[name][0](prob, size, kw)
+            alg = ALL_ALGOS[name][0](prob, size, kw)
             orig = alg.evaluate_all
 
             def traced_evaluate_all(solutions, _orig=orig):
